@@ -11,7 +11,11 @@ elab "#audit_ns " ns:ident : command => do
   let nsName := ns.getId
   let mut names : Array Name := #[]
   for (n, ci) in env.constants.map₁.toList ++ env.constants.map₂.toList do
-    if nsName.isPrefixOf n && !n.isInternal then
+    -- equation / unfolding lemmas the elaborator generates for definitions made inside a Props file are not property theorems
+    let auto := match n with
+      | .str _ s => s == "eq_def" || s == "eq_unfold" || (s.startsWith "eq_" && (s.drop 3).all Char.isDigit)
+      | _ => false
+    if nsName.isPrefixOf n && !n.isInternal && !auto then
       match ci with
       | .thmInfo _ => names := names.push n
       | _ => pure ()
